@@ -25,6 +25,7 @@ type c16resp struct {
 	token any // string token, or non-string, or nil
 	at    time.Time
 	vals  int
+	maybe bool // arrived at the very instant the query timed out: may or may not have been taken
 }
 
 func c16(r *Run) {
@@ -179,8 +180,11 @@ func c16(r *Run) {
 			return
 		}
 		delete(pendingGP, k)
-		if !time.Now().Before(wat.Add(delay)) {
+		atDeadline := false
+		if dl := wat.Add(delay); time.Now().After(dl) {
 			return // the query has timed out: the server no longer waits for this
+		} else if time.Now().Equal(dl) {
+			atDeadline = true // reply and time-out at the same instant: either may win
 		}
 		if y, _ := d.Str("y"); y != "r" {
 			return
@@ -198,7 +202,7 @@ func c16(r *Run) {
 			return
 		}
 		vs, _ := rr.List("values")
-		resps = append(resps, c16resp{addr: from.String(), id: id, token: tok, at: time.Now(), vals: len(vs)})
+		resps = append(resps, c16resp{addr: from.String(), id: id, token: tok, at: time.Now(), vals: len(vs), maybe: atDeadline})
 	}
 
 	// ---- run the announce
@@ -319,8 +323,8 @@ func c16(r *Run) {
 		if stopCalled && !rp.at.Before(stopCalledAt) {
 			continue // delivery may be abandoned once the traversal is stopped
 		}
-		if wasPaused {
-			continue // the consumer did not keep reading
+		if wasPaused || rp.maybe {
+			continue // the consumer did not keep reading / the reply raced the time-out
 		}
 		if stopCalled && stopKind == 1 && backlogAtStop > 0 {
 			backlogAtStop-- // still waiting for the consumer when the announce was closed: may be abandoned
@@ -351,8 +355,8 @@ func c16(r *Run) {
 				maybe[rp.addr] = rp.id
 				continue
 			}
-			if stopCalled && !rp.at.Before(stopCalledAt) {
-				// arrived when the lookup was being stopped: its query may already have
+			if rp.maybe || (stopCalled && !rp.at.Before(stopCalledAt)) {
+				// arrived at its time-out instant, or when the lookup was being stopped: its query may already have
 				// been cancelled, so it is neither a required nor a forbidden member.
 				maybe[rp.addr] = rp.id
 				continue
